@@ -263,6 +263,16 @@ def batch (cfg : Cfg) (self : ChainId) (c : Chain) (sender : Acct) (strict : Boo
     | none => none
     | some (e1, logs) => batchKeeper cfg { c with evm := e1 } (hookPackets logs)
 
+/-- A module-initiated EVM call of a keeper that does NOT run the post-transaction hooks — the AGGREGATE keeper's own
+`CallEVMWithData` (`ApplyMessage` with commit = true, no `PostTxProcessing`) during `MsgConvertERC20` / `MsgConvertCoin` /
+the ICS-20 hook, which call `transfer` / `mint` / `burn` of the pair's token. The token is a contract: what its code does
+is a PARAMETER (`legs`: the frames it executes, as for the batching contract). The EVM state is committed; whatever
+`PacketSent` logs the frames produced are dropped — nobody turns them into commitments. -/
+def moduleCallNoHooks (cfg : Cfg) (self : ChainId) (c : Chain) (legs : List Leg) : Option Chain :=
+  match batchEvm cfg self c.nextSeq true c.evm legs with
+  | none => none
+  | some (e1, _) => some { c with evm := e1 }
+
 /-- The four things `CallPacket(ctx, "onRecvPacket", packet)` does. -/
 inductive Cb
   | ok (c : Chain)                          -- result code 0, state after
